@@ -107,6 +107,13 @@ def op_solve_late(c):
         sg = tad.StochasticGame(prune_states=c["prune"], **game)
     except Exception as e:   # noqa: BLE001
         return exc_info(e)
+    if c.get("redirect"):
+        # ... or: solves once, redirects one transition of its description in place, and solves again through the same object
+        do_solve(game, c["prune"], sg)
+        s, k, d = c["redirect"]
+        row = game["transition_list"][s]
+        row[k] = (row[k][0], d)
+        return do_solve(game, c["prune"], sg)
     game["final_states"].append(c["extra"])
     return do_solve(game, c["prune"], sg)
 
@@ -152,6 +159,18 @@ def op_solve_seq(c):
 def op_rdfs(c):
     try:
         return {"ok": enc(rdfs.reverse_dfs(dec(c["tl"]), dec(c["finals"])))}
+    except Exception as e:   # noqa: BLE001
+        return exc_info(e)
+
+
+def op_rdfs_seq(c):
+    """reverse_dfs on a list, then the caller adds a transition to one of ITS rows in place, then reverse_dfs on the same list again"""
+    tl, finals = dec(c["tl"]), dec(c["finals"])
+    try:
+        first = rdfs.reverse_dfs(tl, finals)
+        u, t = dec(c["edit"])
+        tl[u].append(t)
+        return {"first": enc(first), "ok": enc(rdfs.reverse_dfs(tl, finals))}
     except Exception as e:   # noqa: BLE001
         return exc_info(e)
 
@@ -286,7 +305,7 @@ def op_write_robots(c):
             return exc_info(e)
 
 
-OPS = {"solve": op_solve, "solve_late": op_solve_late, "reach": op_reach, "solve_seq": op_solve_seq, "rdfs": op_rdfs, "rtable": op_rtable,
+OPS = {"solve": op_solve, "solve_late": op_solve_late, "reach": op_reach, "solve_seq": op_solve_seq, "rdfs": op_rdfs, "rdfs_seq": op_rdfs_seq, "rtable": op_rtable,
        "run_games": op_run_games, "report": op_report, "call": op_call, "board": op_board,
        "write_robots": op_write_robots}
 
